@@ -32,7 +32,7 @@ ANCHORS = [
     "acnportal.acnsim.network.current:Current.__sub__",
     "acnportal.acnsim.network.current:Current.__mul__",
 ]
-REQUIRED = ["op:add", "op:remove", "op:update", "op:update_rename", "op:register_refused", "op:register_refused_existing_id", "op:refused_add_unknown_station", "op:refused_remove_unknown_name", "op:refused_update_unknown_name", "subset_queries",
+REQUIRED = ["queries_over_thousands_of_periods", "op:add", "op:remove", "op:update", "op:update_rename", "op:register_refused", "op:register_refused_existing_id", "op:refused_add_unknown_station", "op:refused_remove_unknown_name", "op:refused_update_unknown_name", "subset_queries",
             "tree:+", "tree:-", "tree:*left", "tree:*right", "tree:scalar_multiple_as_operand", "leaf:dict",
             "leaf:list", "leaf:str", "leaf:series", "leaf:tiny_coefficient"]
 BUDGET_S = {"quick": 200, "thorough": 2400}
@@ -301,6 +301,25 @@ def run_case(case, obs):
                 obs.violate("subset_current", f"constraints={sub} time_indices={ti} linear={linear}: got {got.tolist()} expected {exp.tolist()}",
                             ops=log[-8:], stations=ids)
                 return
+    # one query over very many periods at the end of the sequence (lengths on both sides of block sizes an implementation might
+    # use): all periods, and a sorted subset that reaches into the tail
+    if order and case["seed"] % 25 == 0:
+        Tl = rng.choice([1025, 4097, 8193, 10000, 16385, 20000])
+        Sl = np.array([[((7 * i + 3 * t) % 29) + 0.5 for t in range(Tl)] for i in range(len(ids))], dtype=float)
+        A_ = np.array([[model[nm][0].get(s_, 0.0) for s_ in ids] for nm in order], dtype=float)
+        rot = np.exp(1j * np.deg2rad(np.array([angles[s_] for s_ in ids], dtype=float)))
+        full = (A_ * rot[None, :]) @ Sl
+        for ti in (None, sorted(set(rng.sample(range(Tl), 40)) | {Tl - 1, Tl - 2, 8191 % Tl, 8192 % Tl, 1024 % Tl})):
+            for linear in (False, True):
+                got = np.asarray(net.constraint_current(Sl, time_indices=ti, linear=linear))
+                exp = (np.abs(np.abs(A_) @ Sl) if linear else full)
+                exp = exp if ti is None else exp[:, ti]
+                obs.ev("queries_over_thousands_of_periods")
+                if got.shape != exp.shape or not np.allclose(got, exp, rtol=1e-9, atol=1e-9):
+                    badc = int(np.argwhere(~np.isclose(got, exp, rtol=1e-9, atol=1e-9))[0][1]) if got.shape == exp.shape else -1
+                    obs.violate("subset_current", f"{Tl} periods, time_indices={'all' if ti is None else 'subset'}, linear={linear}: first wrong column {badc} "
+                                f"(shape {got.shape} vs {exp.shape})", ops=log[-8:], stations=ids, periods=Tl)
+                    return
     obs.evals = nops
     if nops >= 3 and had_rm_upd and stats["binary"] >= 1 and len(stats["subsets"]) >= 2:
         obs.nontrivial()
